@@ -91,6 +91,11 @@ func DateTimeFromProto(proto *dtpb.DateTime) (DateTime, error) {
 	case dtpb.DateTime_YEAR:
 		l = dtYearLayout
 	}
+	if l == dtDayLayout || l == dtMonthLayout || l == dtYearLayout {
+		// without a time of day there is no offset either: keep the calendar date,
+		// at midnight UTC like the partial DateTimes ParseDateTime produces
+		t = time.Date(t.Year(), t.Month(), t.Day(), 0, 0, 0, 0, time.UTC)
+	}
 	return DateTime{t, l}, nil
 }
 
